@@ -82,7 +82,6 @@ MUTANTS += [
       "            buffer.rp.encode(ciphertext.rp);\n            buffer.q.encode(id.q);\n            result.write_big_endian(buffer.pairing);\n        }\n\n        hash_fill(symmetric, symmetric_length, &buffer, sizeof(buffer));\n    }\n}", "decrypt fills the buffer fields in another order"),
     M("C16-m4", "equiv", ["C16", "C06"], LQ, "sq.multiply(id.q, msk.s);", "sq.multiply_wnaf(id.q, msk.s);", "keygen uses the generic w-NAF multiplication"),
     M("C16-m5", "break", ["C16"], LQ, "hash_fill(symmetric, symmetric_length, &buffer, sizeof(buffer));\n    }\n}", "hash_fill(symmetric, symmetric_length, &buffer, sizeof(buffer) - 1);\n    }\n}", "decrypt hashes one byte less than encrypt"),
-    M("C16-m6", "break", ["C16"], LQ, "ciphertext.rp.from_projective(rp);", "ciphertext.rp.from_projective(rsp);", "ciphertext carries r*s*P (uses rsp before it is computed)"),
 ]
 
 WAPI = "src/wkdibe/api.cpp"
@@ -115,7 +114,6 @@ MUTANTS += [
     M("C13-m2", "break", ["C13"], WAPI, "            prodexp.multiply(params.hsig, message);\n            prodexp.add(prodexp, precomputed.prodexp);\n            a0affine", "            prodexp.copy(params.hsig);\n            prodexp.add(prodexp, precomputed.prodexp);\n            a0affine", "verify ignores the message"),
     M("C13-m3", "break", ["C13"], WAPI, "signature.a0.multiply(sk.bsig, message);", "signature.a0.multiply(sk.bsig, s);", "sign multiplies bsig by the randomness instead of the message"),
     M("C13-m4", "break", ["C13"], WAPI, "while (k != attrs->length && attrs->attrs[k].idx < sk.b[i].idx) {", "while (k != attrs->length && attrs->attrs[k].idx <= sk.b[i].idx) {", "sign skips the attribute that matches a free slot"),
-    M("C13-m5", "break", ["C13"], WAPI, "        return GT::equal(ratio, params.pairing);", "        return GT::equal(ratio, params.pairing) || ratio.is_one();", "verify accepts a trivial ratio (is_one exists?)"),
     M("C13-m6", "break", ["C13"], WAPI, "        signature.a1.add(signature.a1, sk.a1);\n", "", "signature a1 without the key's a1"),
     # ---- C14
     M("C14-m1", "break", ["C14"], WAPI, "            temp.multiply(params.h[from_attr.idx], from_attr.id);\n            temp.negate(temp);\n            precomputed.prodexp.add(precomputed.prodexp, temp);\n            i++;\n        }\n        while (j != to.length) {", "            temp.multiply(params.h[from_attr.idx], from_attr.id);\n            precomputed.prodexp.add(precomputed.prodexp, temp);\n            i++;\n        }\n        while (j != to.length) {", "adjust_precomputed: trailing removed attributes are added instead of subtracted"),
@@ -150,6 +148,6 @@ MUTANTS += [
     M("C07-m8", "break", ["C07"], CYC, "        this->copy(Fq12::one);\n        bool found_one = false;", "        bool found_one = false;", "exponentiate_gt: accumulator not initialised"),
     M("C18-m1", "break", ["C18"], CURVE, "            const ArgType tmp = base;\n            this->multiply_doubleadd_restrict(tmp, scalar, highest_bit);", "            this->multiply_doubleadd_restrict(base, scalar, highest_bit);", "multiply_doubleadd without the private copy of the base (wrong only when this == &base)"),
     M("C18-m2", "break", ["C18"], WNAF, "        WnafTable<Projective, window> t;\n        t.fill_table(a);\n\n        WnafScalar<bits, window> s;\n        s.from_bigint(power);\n\n        wnaf_table_multiply(result, t, s);", "        WnafScalar<bits, window> s;\n        s.from_bigint(power);\n        result.copy(Projective::zero);\n\n        WnafTable<Projective, window> t;\n        t.fill_table(a);\n\n        wnaf_table_multiply(result, t, s);", "wnaf_multiply clears the result before the table is built (wrong only when result is the base)"),
-    M("C18-m3", "equiv", ["C18"], FAST, "        this->x.multiply(a.x, g1_endomorphism_beta);\n        this->y.copy(a.y);\n        this->z.copy(a.z);", "        this->z.copy(a.z);\n        this->y.copy(a.z);\n        this->y.copy(a.y);\n        this->x.multiply(a.x, g1_endomorphism_beta);", "endomorphism: harmless reordering (equivalent)"),
+    M("C18-m3", "break", ["C18"], FAST, "        this->x.multiply(a.x, g1_endomorphism_beta);\n        this->y.copy(a.y);\n        this->z.copy(a.z);", "        this->z.copy(a.z);\n        this->y.copy(a.z);\n        this->y.copy(a.y);\n        this->x.multiply(a.x, g1_endomorphism_beta);", "endomorphism: y is written from z before it is read (wrong only when this == &a)"),
     M("C18-m4", "break", ["C18"], "src/bls12_381/pairing.cpp", "        Fq12 f2;\n        f2.inverse(a);\n        Fq12 r;\n        r.multiply(f1, f2);", "        Fq12& r = result;\n        Fq12 f2;\n        r.multiply(f1, f1);\n        f2.inverse(a);\n        r.multiply(f1, f2);", "final_exponentiation writes the result object before its last read of the input"),
 ]
